@@ -856,7 +856,7 @@ func (m *Model) analyseHandler(pm *prattModel, h *handler, _ string) {
 				default:
 					// a helper of the parser that makes exactly one step onto the next token on every path that can
 					// report success (`expectPeekName`: nextToken for a keyword, expectPeek(IDENT) otherwise)
-					if st, ok := m.oneStepHelper(pm, sc); ok {
+					if st, ok := m.oneStepHelper(pm, sc, c); ok {
 						h.steps = append(h.steps, st)
 						consumed = true
 					}
@@ -952,9 +952,19 @@ func (m *Model) analyseHandler(pm *prattModel, h *handler, _ string) {
 // oneStepHelper: a module function with a single boolean result whose every acyclic path makes at most one step
 // (nextToken or expectPeek of a constant token) and nothing else the shapes know of; a path without a step returns
 // the constant false. The step it stands for is the common one, or "next" when the paths differ.
-func (m *Model) oneStepHelper(pm *prattModel, fn *ssa.Function) (parseStep, bool) {
-	if fn.Blocks == nil || fn.Signature.Results().Len() != 1 || !isBoolT(fn.Signature.Results().At(0).Type()) {
+func (m *Model) oneStepHelper(pm *prattModel, fn *ssa.Function, site *ssa.Call) (parseStep, bool) {
+	if fn.Blocks == nil || fn.Signature.Results().Len() != 1 {
 		return parseStep{}, false
+	}
+	// the verdict is a bool, or a node that is nil on failure (`closeExp(exp, closer)`: exp or nil)
+	nodeResult := false
+	if !isBoolT(fn.Signature.Results().At(0).Type()) {
+		switch fn.Signature.Results().At(0).Type().Underlying().(type) {
+		case *types.Interface, *types.Pointer:
+			nodeResult = true
+		default:
+			return parseStep{}, false
+		}
 	}
 	var steps []parseStep
 	okAll, n := true, 0
@@ -988,6 +998,16 @@ func (m *Model) oneStepHelper(pm *prattModel, fn *ssa.Function) (parseStep, bool
 				if k, ok := c.Call.Args[1].(*ssa.Const); ok {
 					tn = pm.tokName[k.Int64()]
 				}
+				// the token is the helper's parameter: what the call site passes
+				if par, isPar := c.Call.Args[1].(*ssa.Parameter); isPar && site != nil {
+					for i, q := range fn.Params {
+						if q == par && i < len(site.Call.Args) {
+							if k, ok := site.Call.Args[i].(*ssa.Const); ok && k.Value != nil {
+								tn = pm.tokName[k.Int64()]
+							}
+						}
+					}
+				}
 				cur = append(cur[:len(cur):len(cur)], parseStep{op: "expect", tok: tn})
 			case "parseExpression", "parseExpressionList", "parseIdentifier", "parseCallExp":
 				okAll = false
@@ -998,6 +1018,10 @@ func (m *Model) oneStepHelper(pm *prattModel, fn *ssa.Function) (parseStep, bool
 			switch {
 			case len(cur) == 1:
 				steps = append(steps, cur[0])
+			case len(cur) == 0 && nodeResult:
+				if !isNilConst(r.Results[0]) {
+					okAll = false
+				}
 			case len(cur) == 0:
 				if k, isK := r.Results[0].(*ssa.Const); !isK || k.Value == nil || constant.BoolVal(k.Value) {
 					okAll = false
